@@ -34,6 +34,10 @@ pub enum Op {
     BuildAddNode(Key),
     AddEdge(Key, Key),
     BuildAddEdge(Key, Key),
+    /// `GraphMap::from_graph` of a Graph built directly from this list (endpoints in the
+    /// order given, so descending pairs, repeated pairs and self-loops all occur), plus
+    /// isolated nodes
+    FromGraph { edges: Vec<(Key, Key)>, isolated: Vec<Key> },
     BuildUpdateEdge(Key, Key),
     RemoveNode(Key),
     RemoveEdge(Key, Key),
@@ -67,6 +71,7 @@ impl Op {
             Op::GraphRoundtrip(_) => ("into_graph_from_graph", 13),
             Op::FromElements => ("from_elements", 14),
             Op::Clone => ("clone", 15),
+            Op::FromGraph { .. } => ("from_graph", 16),
         }
     }
 }
@@ -264,7 +269,8 @@ fn gen_op(rng: &mut Rng, cfg: &Cfg, m: &Model) -> Op {
                 Op::SetW { a, b, index_mut: rng.chance(1, 2) }
             }
             89..=90 => Op::AllEdgesMut,
-            91..=94 => Op::GraphRoundtrip(Width::pick(rng)),
+            91..=92 => Op::GraphRoundtrip(Width::pick(rng)),
+            93..=94 => Op::FromGraph { edges: gen_list(rng, cfg, m), isolated: (0..rng.below(3)).map(|_| pick_key(rng, cfg, m)).collect() },
             95..=96 => Op::FromElements,
             97 => Op::Clone,
             _ => {
@@ -365,6 +371,27 @@ fn observe<Ty: EdgeType>(g: &GM<Ty>, m: &Model, cfg: &Cfg, obs_rng: &mut Rng) ->
             seen[i] = true;
             let back = petgraph::visit::EdgeIndexable::from_index(g, i);
             ensure!("edge_from_index", back == (a, b), "EdgeIndexable::from_index(to_index(({}, {}))) = {:?}", a, b, back);
+        }
+    }
+    if obs_rng.chance(1, 3) {
+        use crate::engines::iter_protocol as ip;
+        let salt = obs_rng.next_u64();
+        let res = (|| -> Result<(), String> {
+            ip("nodes()", || g.nodes(), |k| *k, salt)?;
+            ip("all_edges()", || g.all_edges(), |e| (e.0, e.1, *e.2), salt)?;
+            if !nodes.is_empty() {
+                let a = nodes[(salt % nodes.len() as u64) as usize];
+                ip(&format!("neighbors({})", a), || g.neighbors(a), |k| *k, salt)?;
+                ip(&format!("neighbors_directed({}, Outgoing)", a), || g.neighbors_directed(a, Direction::Outgoing), |k| *k, salt)?;
+                ip(&format!("neighbors_directed({}, Incoming)", a), || g.neighbors_directed(a, Direction::Incoming), |k| *k, salt)?;
+                ip(&format!("edges({})", a), || g.edges(a), |e| (e.0, e.1, *e.2), salt)?;
+                ip(&format!("edges_directed({}, Outgoing)", a), || g.edges_directed(a, Direction::Outgoing), |e| (e.0, e.1, *e.2), salt)?;
+                ip(&format!("edges_directed({}, Incoming)", a), || g.edges_directed(a, Direction::Incoming), |e| (e.0, e.1, *e.2), salt)?;
+            }
+            Ok(())
+        })();
+        if let Err(e) = res {
+            return Err(("iterator-protocol", e));
         }
     }
     // compact numbering
@@ -590,6 +617,32 @@ fn run<Ty: EdgeType + Clone>(name: &'static str, visit: bool, cfg: &Cfg, mut fee
                 rebuild_model_edges(&mut m, &ws);
                 edges_added += ws.len();
             }
+            Op::FromGraph { edges, isolated } => {
+                let ws: Vec<(Key, Key, u32)> = edges.iter().map(|&(a, b)| (a, b, fresh())).collect();
+                let r = catch(|| {
+                    let mut gr: Graph<Key, u32, Ty, u32> = Graph::default();
+                    let mut ix: BTreeMap<Key, petgraph::graph::NodeIndex<u32>> = BTreeMap::new();
+                    for &k in isolated.iter() {
+                        ix.entry(k).or_insert_with(|| gr.add_node(k));
+                    }
+                    for &(a, b, w) in &ws {
+                        let ia = *ix.entry(a).or_insert_with(|| gr.add_node(a));
+                        let ib = *ix.entry(b).or_insert_with(|| gr.add_node(b));
+                        gr.add_edge(ia, ib, w);
+                    }
+                    g = GraphMap::from_graph(gr);
+                });
+                if let Err(p) = r {
+                    bail!(kind, "panic", "from_graph panicked: {}", p);
+                }
+                m.nodes.clear();
+                m.edges.clear();
+                for &k in isolated.iter() {
+                    m.nodes.insert(k);
+                }
+                rebuild_model_edges(&mut m, &ws);
+                edges_added += ws.len();
+            }
             Op::SetW { a, b, index_mut } => {
                 let w = fresh();
                 let exists = m.weight(*a, *b).is_some();
@@ -772,5 +825,81 @@ fn run<Ty: EdgeType + Clone>(name: &'static str, visit: bool, cfg: &Cfg, mut fee
         acc.state(m.hash());
         step += 1;
     }
+    if cfg.obs_seed % 4 == 0 && m.nodes.len() <= 24 {
+        acc.probe("graphmap_ptr_keyed_mirror");
+        match catch(|| ptr_mirror::<Ty>(&m, cfg)) {
+            Ok(Ok(())) => {}
+            Ok(Err((c, d))) => bail!("ptr_keys", c, "a GraphMap keyed by graphmap::Ptr, holding the final graph of this run: {}", d),
+            Err(p) => bail!("ptr_keys", "panic", "a GraphMap keyed by graphmap::Ptr panicked: {}", p),
+        }
+    }
     Exec { violation: None, nontrivial: step >= 3 && edges_added >= 1 && removals >= 1 }
+}
+
+static PTR_CELLS: [u8; 64] = [0; 64];
+
+/// The same simple graph in a `GraphMap` whose node values are `graphmap::Ptr`s (compared,
+/// ordered and hashed by address) into a static array: node values other than integers.
+fn ptr_mirror<Ty: EdgeType>(m: &Model, cfg: &Cfg) -> Result<(), (&'static str, String)> {
+    use petgraph::graphmap::Ptr;
+    macro_rules! ensure {
+        ($name:expr, $cond:expr, $($arg:tt)*) => {
+            if !($cond) { return Err(($name, format!($($arg)*))); }
+        };
+    }
+    // distinct cells for distinct keys (keys outside the window are folded in; collisions are dropped)
+    let slot = |k: Key| -> usize { ((k as i64 - cfg.key_lo as i64).rem_euclid(64)) as usize };
+    let mut used = BTreeMap::new();
+    for &k in &m.nodes {
+        used.entry(slot(k)).or_insert(k);
+    }
+    let keys: Vec<Key> = used.values().copied().collect();
+    let p = |k: Key| Ptr(&PTR_CELLS[slot(k)]);
+    let keep = |k: Key| used.get(&slot(k)) == Some(&k);
+    let mut g: GraphMap<Ptr<'static, u8>, u32, Ty, SimBuildHasher> = GraphMap::with_capacity_and_hasher(0, 0, SimBuildHasher { seed: cfg.hasher_seed, mode: cfg.hasher_mode });
+    for &k in &keys {
+        g.add_node(p(k));
+    }
+    let mut edges: BTreeMap<(Key, Key), u32> = BTreeMap::new();
+    for (&(a, b), &w) in &m.edges {
+        if keep(a) && keep(b) {
+            // a second copy of the same pointers must address the same nodes
+            let old = g.add_edge(Ptr(&PTR_CELLS[slot(a)]), Ptr(&PTR_CELLS[slot(b)]), w);
+            ensure!("add_edge", old.is_none(), "add_edge of a new edge returned {:?}", old);
+            edges.insert((a, b), w);
+        }
+    }
+    for &k in &keys {
+        g.add_node(p(k));
+    }
+    ensure!("node_count", g.node_count() == keys.len(), "node_count() = {} for {} distinct pointers (re-adding a node must not duplicate it)", g.node_count(), keys.len());
+    ensure!("edge_count", g.edge_count() == edges.len(), "edge_count() = {}, expected {}", g.edge_count(), edges.len());
+    let directed = Ty::is_directed();
+    let weight = |a: Key, b: Key| -> Option<u32> { edges.get(&(a, b)).copied().or_else(|| if directed { None } else { edges.get(&(b, a)).copied() }) };
+    for &a in &keys {
+        ensure!("contains_node", g.contains_node(p(a)), "contains_node is false for an inserted pointer");
+        let mut nb: Vec<usize> = g.neighbors(p(a)).map(|q| (q.0 as *const u8 as usize) - (&PTR_CELLS[0] as *const u8 as usize)).collect();
+        nb.sort();
+        let mut exp: Vec<usize> = keys.iter().filter(|&&b| weight(a, b).is_some()).map(|&b| slot(b)).collect();
+        exp.sort();
+        ensure!("neighbors", nb == exp, "neighbors(cell {}) = cells {:?}, expected {:?}", slot(a), nb, exp);
+        let ne = g.edges(p(a)).count();
+        ensure!("edges", ne == exp.len(), "edges(cell {}) yields {} edges, expected {}", slot(a), ne, exp.len());
+        for &b in &keys {
+            let w = weight(a, b);
+            ensure!("contains_edge", g.contains_edge(p(a), p(b)) == w.is_some(), "contains_edge(cell {}, cell {}) = {}, expected {}", slot(a), slot(b), !w.is_some(), w.is_some());
+            ensure!("edge_weight", g.edge_weight(p(a), p(b)).copied() == w, "edge_weight(cell {}, cell {}) = {:?}, expected {:?}", slot(a), slot(b), g.edge_weight(p(a), p(b)), w);
+        }
+    }
+    let listed = g.all_edges().count();
+    ensure!("all_edges", listed == edges.len(), "all_edges() yields {} edges, expected {}", listed, edges.len());
+    if let Some(&k) = keys.first() {
+        let gone = keys.iter().filter(|&&b| weight(k, b).is_some() || weight(b, k).is_some()).count();
+        let loops = if weight(k, k).is_some() { 1 } else { 0 };
+        let incident: usize = edges.keys().filter(|e| e.0 == k || e.1 == k).count();
+        let _ = (gone, loops);
+        ensure!("remove_node", g.remove_node(p(k)), "remove_node of an inserted pointer returned false");
+        ensure!("remove_node", g.node_count() == keys.len() - 1 && g.edge_count() == edges.len() - incident, "after remove_node: {} nodes / {} edges, expected {} / {}", g.node_count(), g.edge_count(), keys.len() - 1, edges.len() - incident);
+    }
+    Ok(())
 }
